@@ -25,7 +25,10 @@ RULE = (
     "preconditions JADE asserts (demote by a handle that does not believe it is submitter, completing an id it does "
     "not list, mark_complete when already complete in its copy) and the mixed case 'config copy fresh, job status "
     "copy stale' for update_job_status are excluded by construction and counted. After a rejected write the operator "
-    "deletes the deliberate deadlock marker. processes: 2-4 try-submit-jobs / show-status processes from different "
+    "deletes the deliberate deadlock marker. Half of the sequences end with a crash: one up-to-date handle's process is "
+    "killed at a generated lock/file operation inside a write, the operator removes the stale lock, and every other "
+    "handle then writes: whenever the data file on disk is newer than the handle's copy the write must be rejected and "
+    "the files unchanged. processes: 2-4 try-submit-jobs / show-status processes from different "
     "hosts started together in the middle of a generated submission, interleaved at lock- and file-operation "
     "granularity; oracle over the snapshots after every cluster-lock release: the role never passes from one host "
     "to another without being cleared in between, two processes are never inside a submitter round at the same "
@@ -40,6 +43,8 @@ ASSUMPTIONS = C.WORLD_ASSUMPTIONS + [
 setup, teardown = C.setup, C.teardown
 
 OPS = ["load", "load_promote", "promote", "demote", "update", "mark_canceled", "mark_complete", "complete_hpc", "reread_jobs"]
+# "crash": the handle's process dies in the middle of a write (at a generated lock/file operation); the operator removes
+# the stale lock; every handle loaded before then tries to write its copy. Ends the sequence.
 NOHOOKS = {"setup": False, "teardown": False, "node_setup": False, "node_teardown": False}
 
 handle_cases = st.fixed_dictionaries({
@@ -49,6 +54,8 @@ handle_cases = st.fixed_dictionaries({
     "ops": st.lists(st.tuples(st.integers(0, 3), st.sampled_from(OPS + ["update", "load_promote", "demote"]), st.integers(0, 7)),
                     min_size=10, max_size=30),
     "lock_mode": st.sampled_from(["classic", "selfheal"]),
+    "crash": st.one_of(st.none(), st.fixed_dictionaries({"slot": st.integers(0, 3), "what": st.sampled_from(["config", "jobs"]),
+                                                         "at": st.integers(1, 12)})),
 })
 
 
@@ -98,8 +105,35 @@ def run_handles(case, res):
                     "excluded_mixed_staleness": 0, "operator_deleted_marker": 0}
         box = {}
 
-        def in_proc(host, fn):
+        def in_proc(host, fn, crash_at=None):
             box.clear()
+            if crash_at is not None:
+                # the process is interleaved at file-operation granularity and killed when it reaches its crash_at-th
+                # lock/file operation (that operation is not executed)
+                w.file_yields = True
+                try:
+                    def body_c():
+                        try:
+                            box["ret"] = fn()
+                        except (ConfigVersionMismatch, JobStatusVersionMismatch) as e:
+                            box["mismatch"] = type(e).__name__
+                        raise SystemExit(0)
+
+                    vt = w.spawn(f"op{len(w.threads)}", host, w.base_env, body_c, "op")
+                    start = w.steps
+                    w.run(until=lambda ww: ww.steps >= start + crash_at or vt.state == "done")
+                    if vt.state != "done":
+                        w.kill(vt, why="crash")
+                        box["killed"] = True
+                    w.run()
+                finally:
+                    w.file_yields = False
+                marker = os.path.join(out, "cluster_config.json.lock")
+                if os.path.exists(marker):
+                    W.REAL.remove(marker)
+                    w._marker_times.pop(marker, None)
+                    counters["operator_deleted_marker"] += 1
+                return
 
             def body():
                 try:
@@ -130,6 +164,90 @@ def run_handles(case, res):
             v.append(C.viol("C10:create-failed", f"{box}"))
             return
         applied = []
+
+        def raw_state():
+            files = {}
+            for f in W.CLUSTER_FILES:
+                try:
+                    with W.REAL.open(os.path.join(out, f), "rb") as fh:
+                        files[f] = fh.read()
+                except FileNotFoundError:
+                    files[f] = None
+            vers = {}
+            for f in ("cluster_config.json", "job_status.json"):
+                try:
+                    vers[f] = json.loads(files[f])["version"]
+                except (TypeError, ValueError, KeyError):
+                    vers[f] = None
+            return files, vers
+
+        def config_write(h, host):
+            if h.config.submitter is None:
+                return "promote", h.promote_to_submitter
+            if h.config.submitter == host:
+                return "demote", h.demote_from_submitter
+            if not h.config.is_canceled:
+                return "mark_canceled", h.mark_canceled
+            return None, None
+
+        def jobs_write(h):
+            ids = list(h.job_status.hpc_job_ids)
+            if ids:
+                return "complete_hpc", (lambda: h.complete_hpc_job_id(ids[0]))
+            return None, None
+
+        def crash_probe(spec):
+            """One handle's process dies inside a write; then every other handle (all loaded before) tries to write."""
+            slot = spec["slot"] % case["nhandles"]
+            g, host = handles.get(slot), f"h{slot}"
+            files0, vers0 = raw_state()
+            target = "cluster_config.json" if spec["what"] == "config" else "job_status.json"
+            if None in vers0.values():
+                counters["excluded_precondition"] += 1
+                return
+            if g is None or g.config.version != vers0["cluster_config.json"] or g.job_status.version != vers0["job_status.json"]:
+                # the process that is going to die works on an up-to-date copy (otherwise its write is rejected at once)
+                in_proc(host, lambda: Cluster.deserialize(out, try_promote_to_submitter=False, deserialize_jobs=True))
+                if "ret" not in box:
+                    counters["excluded_precondition"] += 1
+                    return
+                g = handles[slot] = box["ret"][0]
+            opname, fn = config_write(g, host) if spec["what"] == "config" else jobs_write(g)
+            if fn is None:
+                counters["excluded_precondition"] += 1
+                return
+            in_proc(host, fn, crash_at=spec["at"])
+            if not box.get("killed"):
+                return  # the write finished before the crash point: nothing new
+            res["classes"].append("crash_inside_write")
+            applied.append((host, "crash:" + opname, f"at operation {spec['at']}"))
+            for s2 in sorted(handles):
+                if s2 == slot:
+                    continue
+                h, host2 = handles[s2], f"h{s2}"
+                files1, vers1 = raw_state()
+                mine = h.config.version if target == "cluster_config.json" else h.job_status.version
+                newer = vers1[target] is not None and vers1[target] > mine
+                op2, fn2 = config_write(h, host2) if target == "cluster_config.json" else jobs_write(h)
+                if fn2 is None:
+                    continue
+                in_proc(host2, fn2)
+                files2, _ = raw_state()
+                if newer:
+                    res["classes"].append("crash_left_newer_data_than_a_handle_copy")
+                    counters["rejected_stale_writes"] += 1
+                    if "ret" in box:
+                        v.append(C.viol(f"C10:stale-write-not-rejected|after-crash|{op2}", f"{host} died inside {opname} (at its operation "
+                                        f"{spec['at']}) leaving {target} at version {vers1[target]}; {host2} holds version {mine} and its "
+                                        f"{op2} was accepted: {box}"))
+                    if files2 != files1:
+                        changed = [f for f in files1 if files1[f] != files2[f]]
+                        v.append(C.viol(f"C10:stale-write-changed-files|after-crash|{op2}", f"{host} died inside {opname} leaving {target} at "
+                                        f"version {vers1[target]}; {host2}.{op2} from version {mine} changed {changed}"))
+                    applied.append((host2, op2, "rejected" if "ret" not in box else "NOT-REJECTED"))
+                if v:
+                    return
+
         for slot, op, arg in case["ops"]:
             slot = slot % case["nhandles"]
             host = f"h{slot}"
@@ -241,6 +359,8 @@ def run_handles(case, res):
                 v.append(C.viol("C10:role-field-differs-from-model", f"after {applied[-1] if applied else None}: submitter on disk "
                                 f"{cc_now['submitter']!r}, model {model['submitter']!r}"))
                 break
+        if case.get("crash") and not v:
+            crash_probe(case["crash"])
         res["counters"].update(counters)
         res["nontrivial"] = counters["refused_promotions"] >= 1 and counters["rejected_stale_writes"] >= 1
         if res["nontrivial"] or v:
